@@ -11,11 +11,6 @@ K("awkward_localindex",
   ensures_ok=["forall(q, 0, length, toindex[q] == q)"],
   serves=["C05", "C12", "C13"])
 
-K("awkward_RegularArray_localindex",
-  extents={"toindex": "length * size"},
-  notes="the functional invariant over the nonlinear index q*size + r made z3's verdict depend on machine load; dropped -- the kernel stays pinned to its definition by E",
-  serves=["C05", "C12", "C13"])
-
 # C09: regular pad-and-clip: every row gets exactly `target` slots, the first min(size,target) are the row's
 # own positions in order, the rest are -1
 K("awkward_RegularArray_rpad_and_clip_axis1",
